@@ -226,7 +226,10 @@ def k2(ctx):
 
 
 # ----------------------------------------------------------------------------------------------- K1a
-CTX_SINK = {"sorted": {"sorted"}, "member": {"member"}, "eq": {"member"}, "size": {"member"}, "construct": {"none"}}
+CTX_SINK = {"sorted": {"sorted"}, "member": {"member"}, "eq": {"member"}, "size": {"member"}, "construct": {"none"},
+            "state:module": {"constant"}, "state:class": {"constant"},
+            # caches, mutations of module-level containers and `global` statements have no admissible row
+            "state:cache": set(), "state:mutate": set(), "state:global": set()}
 
 
 def k1_scan(ctx, repo):
@@ -734,13 +737,14 @@ def k3(ctx, scratch):
                 r["listing_order"] = lo
                 plan[0].append(((c.sid, ("listing", lo)), r))
             # cwd contains an unrelated directory named like an imported module
-            r = c.request(scratch.new(c.sid))
-            r["start_cwd"] = True
-            plan[0].append(((c.sid, ("cwdbase", 0)), r))
-            r = c.request(scratch.new(c.sid))
-            r["files"] = {**r["files"], "pydantic/.keep": "", "typing_extensions/.keep": ""}
-            r["start_cwd"] = True
-            plan[0].append(((c.sid, ("shadow", 0)), r))
+            if ctx.thorough or c.selfimport or c.kind == "corpus" or sum(map(ord, c.sid)) % 3 == 0:
+                r = c.request(scratch.new(c.sid))
+                r["start_cwd"] = True
+                plan[0].append(((c.sid, ("cwdbase", 0)), r))
+                r = c.request(scratch.new(c.sid))
+                r["files"] = {**r["files"], "pydantic/.keep": "", "typing_extensions/.keep": ""}
+                r["start_cwd"] = True
+                plan[0].append(((c.sid, ("shadow", 0)), r))
             # stale target directory
             r = c.request(scratch.new(c.sid))
             r["files"] = {**r["files"], **stale_files}
@@ -910,6 +914,7 @@ def k3(ctx, scratch):
                     report_mismatch(ctx, c, "first generation of a fresh process differs from a generation in a worker that generated other packages before",
                                     "fresh process", "pooled worker", firsts[c.sid], base, scratch)
         k3_same_process(ctx, cases, scratch, results)
+        k3_cross_project(ctx, scratch)
         k3_schema(ctx, cases, scratch, seeds)
         if cases:
             c = cases[0]
@@ -1016,6 +1021,159 @@ def k3_same_process(ctx, cases, scratch, results):
         report_mismatch(ctx, cs[-1], f"second generation in one interpreter differs ({kind}: {[c.sid for c in cs]})",
                         "fresh process", "second in process", want, last, scratch)
         run.nontrivial_case(("process-state", kind, cs[-1].sid))
+
+
+def cross_projects(ctx):
+    """Different projects that SHARE NAMES (types T0.., Node, AnyT, enums, scalars DateTime/JSONBlob, operations
+    GetRoot/listLinked/Unions/Nodes/Touch, fragment names from one small pool, file names) but differ in content
+    and configuration: scalar configured as a builtin / with parse+serialize / with the deprecated `import` key /
+    not at all; files_to_include and a custom base client whose CONTENT is edited between runs; both strategies."""
+    base = ctx.seed * 10007
+    A, B = c10_gen.make(700 + base), c10_gen.make(701 + base)
+
+    def proj(sid, sc, scalars, files=None, extra_cfg=None, plugins=()):
+        cfg = {k: v for k, v in sc.config.items() if k != "scalars"}
+        if scalars:
+            cfg["scalars"] = scalars
+        cfg.update(extra_cfg or {})
+        fs = {k: v for k, v in sc.files.items()}
+        fs.update(files or {})
+        return Case(sid, scen_gen.Scenario(seed=sc.seed, sdl=sc.sdl, queries=sc.queries, config=cfg, files=fs), plugins, "cross")
+
+    full = {"type": "datetime.datetime", "parse": "scalars_impl.parse_dt", "serialize": "scalars_impl.ser_dt"}
+    impl = {"scalars_impl.py": c10_gen.SCALARS_PY}
+    P = {
+        "A-builtin+import1": proj("xA1", A, {"DateTime": {"type": "str"}, "JSONBlob": {"type": "MyBlob", "import": "blob_mod_one"}}),
+        "B-unconfigured+import2": proj("xB1", B, {"JSONBlob": {"type": "MyBlob", "import": "blob_mod_two"}}),
+        "A-full+unconfigured": proj("xA2", A, {"DateTime": full}, impl),
+        "A-unconfigured": proj("xA3", A, None),
+        "B-builtin-int": proj("xB2", B, {"DateTime": {"type": "int"}, "JSONBlob": {"type": "dict"}}, plugins=("shorter", "extract")),
+    }
+    base_client = open(os.path.join(workers.REPO, "ariadne_codegen", "client_generators", "dependencies",
+                                    "async_base_client.py")).read().replace("class AsyncBaseClient", "class MyBaseClient")
+    for v in (1, 2):
+        P[f"A-included-v{v}"] = proj(
+            f"xF{v}", A, {"DateTime": {"type": "datetime.datetime", "parse": ".extra_mod.parse_dt", "serialize": ".extra_mod.ser_dt"}},
+            {"extra_mod.py": c10_gen.SCALARS_PY + f"\nVERSION = {v}\n" + ("" if v == 1 else "def added_in_v2():\n    return 2\n"),
+             "my_base_client.py": base_client + f"\n# edition {v}\n"},
+            {"files_to_include": ["extra_mod.py"], "base_client_file_path": "my_base_client.py",
+             "base_client_name": "MyBaseClient", "async_client": True})
+    return A, B, P
+
+
+def k3_cross_project(ctx, scratch):
+    """2-4 generations in ONE interpreter over DIFFERENT projects sharing names, both strategies interleaved; each
+    generation byte for byte against the same generation in a fresh interpreter; and the interpreter-global
+    state of ariadne_codegen (module globals, class attributes, function defaults, functools cache sizes)
+    fingerprinted before and after every generation: any change is a correspondence break naming the site
+    (Model gen_client_imports hands the state on unchanged: C10_history_independent)."""
+    run = ctx.run
+    A, B, P = cross_projects(ctx)
+
+    def client(name):
+        return ("client", name)
+
+    def gs(which, fmt):
+        return ("gs", which, fmt)
+
+    seqs = [
+        [client("A-builtin+import1"), client("B-unconfigured+import2"), client("A-full+unconfigured")],
+        [client("B-builtin-int"), client("A-unconfigured"), client("B-unconfigured+import2")],
+        [client("A-full+unconfigured"), client("A-unconfigured"), client("A-builtin+import1")],
+        [client("B-unconfigured+import2"), client("A-builtin+import1")],
+        [gs("A", "py"), client("A-unconfigured"), gs("A", "py")],
+        [gs("B", "graphql"), client("B-builtin-int"), gs("B", "graphql"), gs("A", "graphql")],
+        [client("A-builtin+import1"), gs("A", "py"), gs("B", "py")],
+        [client("A-included-v1"), client("A-included-v2")],
+        [client("A-included-v2"), client("A-included-v1"), client("A-unconfigured")],
+    ]
+    if ctx.thorough:
+        names = sorted(P)
+        for i in range(12):
+            r = random.Random(i + ctx.seed)
+            seqs.append([r.choice([client(r.choice(names)), gs(r.choice("AB"), r.choice(["py", "graphql"]))]) for _ in range(4)])
+
+    def request(step, d):
+        if step[0] == "client":
+            return P[step[1]].request(d)
+        sc = A if step[1] == "A" else B
+        return {"dir": d, "schema": sc.sdl, "queries": None, "strategy": "graphqlschema", "files": {},
+                "config": {"target_file_path": "schema_types.py" if step[2] == "py" else "schema.out.graphql"}}
+
+    steps = sorted({st for sq in seqs for st in sq})
+    fresh = {}
+
+    def do_fresh(st):
+        req = request(st, scratch.new("xf"))
+        res = run_isolated(req, 0)
+        fresh[st] = (read_tree(target_of(req, res)) if res.get("ok") else None, res)
+    with ThreadPoolExecutor(max_workers=8) as ex:
+        list(ex.map(do_fresh, steps))
+    for st in steps:
+        run.dist("cross_project_steps", st[0] if st[0] == "client" else f"graphqlschema-{st[2]}")
+        if fresh[st][0] is None:
+            run.broken("K3 cross-project", f"fresh generation of {st} failed: {fresh[st][1].get('exc')}")
+
+    def do_seq(sq):
+        w = workers.Worker(WORKER, env=workers.child_env(hashseed="0"))
+        out = []
+        try:
+            state = w.ask({"cmd": "state"}).get("state") or {}
+            shared_dir = scratch.new("xs")   # included files edited in place between runs: same project directory
+            for st in sq:
+                d = shared_dir if (st[0] == "client" and "included" in st[1]) else scratch.new("xs")
+                req = request(st, d)
+                res = w.ask(req)
+                files = read_tree(target_of(req, res)) if res.get("ok") else None
+                after = w.ask({"cmd": "state"}).get("state") or {}
+                changed = sorted(k for k in set(state) | set(after) if state.get(k) != after.get(k))
+                out.append((st, files, res, [(k, (state.get(k) or "<absent>")[:160], (after.get(k) or "<absent>")[:160])
+                                             for k in changed]))
+                state = after
+        finally:
+            w.close()
+        return out
+    with ThreadPoolExecutor(max_workers=8) as ex:
+        outs = list(ex.map(do_seq, seqs))
+    reported = set()
+    for sq, out in zip(seqs, outs):
+        label = " -> ".join(st[1] if st[0] == "client" else f"graphqlschema({st[1]},{st[2]})" for st in sq)
+        for i, (st, files, res, changed) in enumerate(out):
+            run.count()
+            run.dist("comparisons", "cross-project sequence in one interpreter")
+            if changed and not (set(k for k, _a, _b in changed) <= reported):
+                reported |= set(k for k, _a, _b in changed)
+                run.violation(f"interpreter-global state of ariadne_codegen changed during generation {i + 1} of [{label}]: "
+                              + "; ".join(k for k, _a, _b in changed[:6]),
+                              {"stage": "K1 module state (gen_client_imports hands the state on unchanged)", "sequence": label,
+                               "generation": i + 1, "changed_sites": [{"site": k, "before": a, "after": b} for k, a, b in changed[:12]]},
+                              found_input=False)
+            want = fresh[st][0]
+            if want is None:
+                continue
+            if files is None:
+                run.violation(f"generation {i + 1} of [{label}] fails in a shared interpreter ({res.get('exc')}) but succeeds in a fresh one",
+                              {"sequence": label, "generation": i + 1, "exc": res.get("exc"), "tb": res.get("tb")})
+                continue
+            if files != want:
+                differing = [n for n in sorted(set(files) | set(want)) if files.get(n) != want.get(n)]
+                key = (st, tuple(differing))
+                if key in reported:
+                    continue
+                reported.add(key)
+                proj = P[st[1]] if st[0] == "client" else None
+                run.violation(
+                    f"generation {i + 1} of [{label}] in one interpreter differs from the same generation in a fresh interpreter: {differing[:6]}",
+                    {"sequence": label, "generation": i + 1, "differing_files": differing,
+                     "earlier_generations": [str(x) for x in sq[:i]],
+                     "config": proj.config() if proj else request(st, "")["config"],
+                     "schema": (proj.sc.sdl if proj else (A if st[1] == "A" else B).sdl),
+                     "queries": proj.sc.queries if proj else None,
+                     "state_changes_so_far": [c[0] for o in out[: i + 1] for c in o[3]][:12],
+                     "diff": "\n".join(udiff(want.get(n, b""), files.get(n, b""), n, "fresh interpreter", f"after {i} generation(s)")
+                                       for n in differing[:3])})
+            else:
+                run.nontrivial_case(("cross-project", label, i))
 
 
 def k3_schema(ctx, cases, scratch, seeds):
